@@ -648,6 +648,35 @@ func lastJSONLine(b []byte) []byte {
 	return nil
 }
 
+// c14Globals: package-level state must not depend on what the library processed (see cmd/sched globalsMode).
+func c14Globals(c *core.Ctx, b *c14Build) {
+	if b.problem != "" {
+		return
+	}
+	cmd := exec.Command(b.sched, "globals")
+	cmd.Env = append(os.Environ(), "GOMAXPROCS=1", "SCHED_GRANULARITY=0")
+	stop := c.KeepAlive("package-level state dump")
+	out, err := cmd.Output()
+	stop()
+	var r struct {
+		Variables []string          `json:"variables"`
+		Changed   []string          `json:"changed"`
+		Detail    map[string]string `json:"detail"`
+	}
+	if jerr := json.Unmarshal(lastJSONLine(out), &r); jerr != nil {
+		c.Note("package_level_state", fmt.Sprintf("dump unavailable: %v", err))
+		return
+	}
+	c.Count("package_level_variables_dumped", int64(len(r.Variables)))
+	c.Note("package_level_state", fmt.Sprintf("variables %v: unchanged by processing different inputs: %v", r.Variables, len(r.Changed) == 0))
+	for _, v := range r.Changed {
+		pl, _ := json.Marshal(c14Payload{Clause: "globals"})
+		c.Violate(core.Violation{Kind: "package-level-state-depends-on-input", Case: v,
+			Detail: "after all scenario jobs had run once, running them again on inputs with different spellings changed package-level variable " + v + ": " + core.Short(r.Detail[v], 500), Payload: pl, Size: 1,
+			Sig: "package-level-state-depends-on-input|" + v})
+	}
+}
+
 func c14Race(c *core.Ctx, b *c14Build) {
 	if b.problem != "" || b.racep == "" {
 		c.Note("race_pass", "unavailable (race-enabled build failed)")
@@ -720,6 +749,7 @@ func c14Run(c *core.Ctx) {
 	c14Schedules(c, b)
 	c.SetMax("phase_ms:schedules", time.Since(t0).Milliseconds())
 	if c.Shard == 0 {
+		c14Globals(c, b)
 		c14Race(c, b)
 	}
 }
@@ -734,6 +764,23 @@ func c14Replay(pl json.RawMessage) (string, []core.Violation) {
 			return out, []core.Violation{{Kind: k, Case: strings.Join(p.Text, "; "), Detail: d}}
 		}
 		return out, nil
+	case "globals":
+		b := c14Prepare(nil, "replay"+strconv.Itoa(os.Getpid()))
+		defer os.RemoveAll(b.dir)
+		if b.problem != "" {
+			return "instrumented build unavailable: " + b.problem, nil
+		}
+		out, _ := exec.Command(b.sched, "globals").Output()
+		var r struct {
+			Changed []string          `json:"changed"`
+			Detail  map[string]string `json:"detail"`
+		}
+		json.Unmarshal(lastJSONLine(out), &r)
+		var vs []core.Violation
+		for _, v := range r.Changed {
+			vs = append(vs, core.Violation{Kind: "package-level-state-depends-on-input", Case: v, Detail: core.Short(r.Detail[v], 500)})
+		}
+		return "package-level state dump", vs
 	case "schedule", "race":
 		b := c14Prepare(nil, "replay"+strconv.Itoa(os.Getpid()))
 		defer os.RemoveAll(b.dir)
@@ -770,7 +817,7 @@ func c14Replay(pl json.RawMessage) (string, []core.Violation) {
 func init() {
 	core.Register(&core.PropSpec{
 		ID: "C14", Level: "model_checking",
-		Rule:     "(H) every history <= depth 4 (5 thorough, reduced alphabet) ending in an observation over 37 calls on two parser/lexer builder stacks and two compilers {NewBuilder, RegisterInfix/Postfix/Prefix with plugin token types, two order-observable statement interceptors, a re-entrant expression interceptor, WithTolerantMode, WithSmartSemicolon, Build(4 inputs)+ParseProgram, WithPrettyPrint x2, WithSourceMap, Compile(tree of A|B), debug.ToString}: each Build observation (errors, tree dump with positions, final context) and each Compile observation (code, mappings, names) equals the observation of the same configuration replayed on FRESH instances used alone; the tree dump is unchanged by Compile/ToString; Code with source map = Code without; debug.ToString = compact compilation. (S) schedules: the jobs of 4 scenarios (S1 distinct builders with different plugins/options/inputs, S2 one shared parser builder, S3 one shared tree compiled under different configurations + debug.ToString, S4 one shared configured compiler) run as threads of a cooperative scheduler on the overlay-instrumented library (yield points: every access to a package-level variable [granularity 0], + every store through a selector/index/pointer [1], + every function and closure entry [2]); iterative context bounding: ALL schedules with <= b preemptions are executed (quick tier, 2 jobs: b=3 at granularity 0; b=1 at granularities 1 and 2 on the full inputs; b=2 at granularity 1 on the full inputs for the shared-object scenarios S2-S4; b=2 at granularity 2 on one-expression inputs for S3 and S4, at granularity 1 for S1; 3 jobs: b=2 at granularity 0, b=1 at granularity 1 on the full inputs and at granularity 2 on one-expression inputs; thorough adds S2 at granularity 2 with b=2, 3 jobs with b=4 at granularity 0, S1 with b=2 at granularity 1, and b=3 / 3 jobs b=2 at granularity 2 for S3, S4); the exact task list and the time of each task are in the evidence file; each job's result must equal its result when run alone; a violating schedule is replayed and must reproduce before it is believed; a package-level variable written by one job and accessed by another is reported (the library has no synchronisation). (R) complement, sampling, not the deciding step: the same jobs free-running on 16 goroutines under the race detector. states = histories + schedules executed; transitions = history steps + scheduling steps",
+		Rule:     "(H) every history <= depth 4 (5 thorough, reduced alphabet) ending in an observation over 37 calls on two parser/lexer builder stacks and two compilers {NewBuilder, RegisterInfix/Postfix/Prefix with plugin token types, two order-observable statement interceptors, a re-entrant expression interceptor, WithTolerantMode, WithSmartSemicolon, Build(4 inputs)+ParseProgram, WithPrettyPrint x2, WithSourceMap, Compile(tree of A|B), debug.ToString}: each Build observation (errors, tree dump with positions, final context) and each Compile observation (code, mappings, names) equals the observation of the same configuration replayed on FRESH instances used alone; the tree dump is unchanged by Compile/ToString; Code with source map = Code without; debug.ToString = compact compilation. (S) schedules: the jobs of 4 scenarios (S1 distinct builders with different plugins/options/inputs, S2 one shared parser builder, S3 one shared tree compiled under different configurations + debug.ToString, S4 one shared configured compiler) run as threads of a cooperative scheduler on the overlay-instrumented library (yield points: every access to a package-level variable [granularity 0], + every store through a selector/index/pointer [1], + every function and closure entry [2]); iterative context bounding: ALL schedules with <= b preemptions are executed (quick tier, 2 jobs: b=3 at granularity 0; b=1 at granularities 1 and 2 on the full inputs; b=2 at granularity 1 on the full inputs for the shared-object scenarios S2-S4; b=2 at granularity 2 on one-expression inputs for S3 and S4, at granularity 1 for S1; 3 jobs: b=2 at granularity 0, b=1 at granularity 1 on the full inputs and at granularity 2 on one-expression inputs; thorough adds S2 at granularity 2 with b=2, 3 jobs with b=4 at granularity 0, S1 with b=2 at granularity 1, and b=3 / 3 jobs b=2 at granularity 2 for S3, S4); the exact task list and the time of each task are in the evidence file; each job's result must equal its result when run alone; a violating schedule is replayed and must reproduce before it is believed; a package-level variable written by one job and accessed by another is reported (the library has no synchronisation); package-level state invariance: after all jobs have run once, every package-level variable of the library is dumped, the jobs are run again on inputs of the same shapes with different spellings, and the dump must be unchanged (a cache keyed by input is shared mutable state even when it is synchronised). (R) complement, sampling, not the deciding step: the same jobs free-running on 16 goroutines under the race detector. states = histories + schedules executed; transitions = history steps + scheduling steps",
 		Assume:   []string{"sequential consistency; scheduling points as listed (races between two accesses inside one function without a store or call in between are left to the race pass)", "solo replay = the builder's configuration calls without its earlier Build calls"},
 		QuickSec: 400, ThorSec: 3000, Run: c14Run, Replay: c14Replay,
 		Evals: "observations_compared_with_solo", Nontriv: "schedules", States: "histories", Trans: "schedule_steps",
